@@ -108,19 +108,36 @@ def gen_lit(r: random.Random) -> tuple:
     return ("lit", "BLANK")
 
 
-def gen_primitive(r: random.Random, scope: list[str]) -> tuple:
+def gen_tstr(r: random.Random, scope: list[str]) -> tuple:
+    """A template string: literal chunks and ${ filtered expressions }."""
+    parts: list[tuple] = []
+    for _ in range(r.choice([1, 2, 3])):
+        if r.random() < 0.6:
+            parts.append(("lit", r.choice(["a", " b ", "x=", "é", "-", "$", "{", "1"])))
+        parts.append(("interp", gen_filtered(r, scope, r.random() < 0.3, False)))
+    if r.random() < 0.5:
+        parts.append(("lit", r.choice(["!", " z", "}"])))
+    return ("tstr", parts)
+
+
+def gen_primitive(r: random.Random, scope: list[str], tstr: bool = True) -> tuple:
     k = r.random()
     if k < 0.55:
         return gen_path(r, scope)
-    if k < 0.92:
+    if k < 0.88 or (k < 0.92 and not tstr):
         return gen_lit(r)
+    if k < 0.92:
+        return gen_tstr(r, scope)
     lo = ("lit", r.choice([0, 1, 2])) if r.random() < 0.7 else ("path", "n", [])
     hi = ("lit", r.choice([0, 2, 3, 4])) if r.random() < 0.7 else ("path", "n", [])
     return ("range", lo, hi)
 
 
-def gen_filtered(r: random.Random, scope: list[str], allow_tern: bool = True) -> tuple:
-    e = gen_primitive(r, scope)
+def gen_filtered(r: random.Random, scope: list[str], allow_tern: bool = True, tstr: bool = True) -> tuple:
+    e = gen_primitive(r, scope, tstr)
+    if allow_tern and r.random() < 0.05:
+        # array literal: comma separated primitives (a trailing comma makes a one item array)
+        e = ("array", [e] + [gen_primitive(r, scope, False) for _ in range(r.choice([0, 1, 1, 2]))])
     for _ in range(r.choice([0, 0, 0, 1, 1, 2])):
         name = r.choice(list(FILTERS))
         args = []
@@ -207,6 +224,32 @@ def gen_bool(r: random.Random, scope: list[str], depth: int = 2) -> tuple:
 
 TEXTS = ["", " ", "\n", "  \n", "x", "Hello", " a ", "<b>", "é!", "1 ", ", ", "\u00a0", "\r\n\u2003y\x1c", "\x0b z\u3000\n"]
 PARTIALS = ["p1", "p2", "p3"]
+
+
+def to_lines_ast(x: Any) -> Any:
+    """A block in which everything can be written as a line statement of a
+    {% liquid %} tag: text and output become echo, raw becomes a comment, a
+    nested liquid tag is spliced."""
+    if is_block(x):
+        out: list[tuple] = []
+        for n in x:
+            if n[0] == "content":
+                if n[1]:
+                    out.append(("echo", ("lit", n[1] if ("\n" not in n[1] and "\r" not in n[1]) else "nl")))
+            elif n[0] == "output":
+                out.append(("echo", n[1]))
+            elif n[0] == "raw":
+                out.append(("comment", 2))
+            elif n[0] == "liquid":
+                out.extend(to_lines_ast(n[1]))
+            else:
+                out.append(to_lines_ast(n))
+        return out
+    if isinstance(x, tuple):
+        return tuple(to_lines_ast(e) for e in x)
+    if isinstance(x, list):
+        return [to_lines_ast(e) for e in x]
+    return x
 
 
 class Gen:
@@ -317,6 +360,9 @@ class Gen:
             grp = r.choice([None, None, "g", "h"])
             return ("cycle", grp, [gen_primitive(r, scope) for _ in range(r.choice([1, 2, 3]))])
         if k < 0.5:
+            if depth > 0 and r.random() < 0.4:
+                # {% liquid %}: the same constructs written as line statements
+                return ("liquid", to_lines_ast(self.block(scope, depth - 1, in_loop, n=r.choice([1, 2, 3, 4]))))
             return r.choice([("comment", r.choice([0, 1, 2])), ("raw", r.choice(["", "raw {{ x }}", " ", " r\n"]))])
         # block tags
         if k < 0.6:
@@ -338,7 +384,9 @@ class Gen:
         if k < 0.8:
             x = r.choice(["i", "j", "x"])
             kk = r.random()
-            if kk < 0.55:
+            if kk < 0.08:
+                it = ("array", [gen_primitive(r, scope, False) for _ in range(r.choice([1, 2, 3]))])
+            elif kk < 0.55:
                 it = ("path", r.choice(["xs", "xs", "d", "s", "a", "b"]), [])
             elif kk < 0.85:
                 it = ("range", ("lit", r.choice([0, 1, 2])), ("lit", r.choice([1, 2, 3, 4])))
@@ -350,12 +398,14 @@ class Gen:
             off: Any = None
             if r.random() < 0.3:
                 off = "continue" if r.random() < 0.45 else (("lit", r.choice([0, 1, 2])) if r.random() < 0.7 else ("path", "n", []))
+            if it[0] == "array":
+                lim, off = None, None      # arguments are not allowed to follow an array literal
             inner = scope + [x, "forloop"]
             body = self.block(inner, depth - 1, True)
             if r.random() < 0.25:
                 body.insert(r.randint(0, len(body)), ("if", gen_bool(r, inner, 1), [r.choice([("break",), ("continue",)])], [], None))
             els = self.block(scope, depth - 1, in_loop) if r.random() < 0.3 else None
-            return ("for", x, it, lim, off, r.random() < 0.2, body, els)
+            return ("for", x, it, lim, off, r.random() < 0.2 and it[0] != "array", body, els)
         if k < 0.84:
             return ("capture", r.choice(["c", "t"]), self.block(scope, depth - 1, in_loop))
         if k < 0.88:
@@ -441,6 +491,10 @@ def p_expr(e: tuple, top: bool = True) -> str:
         return p_str(v)
     if t == "range":
         return f"({p_expr(e[1])}..{p_expr(e[2])})"
+    if t == "array":
+        return p_expr(e[1][0]) + "," if len(e[1]) == 1 else ", ".join(p_expr(x) for x in e[1])
+    if t == "tstr":
+        return '"' + "".join(x[1] if x[0] == "lit" else "${" + p_expr(x[1]) + "}" for x in e[1]) + '"'
     if t == "path":
         out = e[1]
         for s in e[2]:
@@ -560,6 +614,62 @@ def p_nodes_raw(nodes: list[tuple], r: random.Random | None = None) -> str:
     return "".join(p_node(n, r) for n in nodes)
 
 
+# Lines inside a liquid-tag comment block are indented like any other line only
+# once /repo accepts that (defect 31: "unclosed comment block" for an indented endcomment).
+LIQUID_COMMENT_INDENT = False
+NOIND = "\ue004"
+
+
+def p_lines(nodes: list[tuple]) -> list[str]:
+    """The line statements of a {% liquid %} tag for a block made of tags only."""
+    out: list[str] = []
+    for n in nodes:
+        t = n[0]
+        if t in ("echo", "assign", "break", "continue", "increment", "decrement", "cycle", "render", "include", "call"):
+            inner = p_node(n, None)
+            assert inner.startswith(OT) and inner.endswith(CT) and "\n" not in inner, inner
+            out.append(inner[len(OT):-len(CT)].strip())
+        elif t == "comment":
+            out += ["comment", NOIND + "c {{ x }}", NOIND + "endcomment"] if n[1:] == (0,) else ["# c x"]
+        elif t == "capture":
+            out += [f"capture {n[1]}"] + p_lines(n[2]) + ["endcapture"]
+        elif t in ("if", "unless"):
+            out += [f"{t} {p_expr(n[1])}"] + p_lines(n[2])
+            for c, b in n[3]:
+                out += [f"elsif {p_expr(c)}"] + p_lines(b)
+            if n[4] is not None:
+                out += ["else"] + p_lines(n[4])
+            out.append(f"end{t}")
+        elif t == "case":
+            out.append(f"case {p_expr(n[1])}")
+            for alts, b in n[2]:
+                out += ["when " + ", ".join(p_expr(a) for a in alts)] + p_lines(b)
+            if n[3] is not None:
+                out += ["else"] + p_lines(n[3])
+            out.append("endcase")
+        elif t == "for":
+            _, x, it, lim, off, rev, fbody, els = n
+            head = f"for {x} in {p_expr(it)}"
+            if lim is not None:
+                head += f" limit: {p_expr(lim)}"
+            if off is not None:
+                head += " offset: " + ("continue" if off == "continue" else p_expr(off))
+            if rev:
+                head += " reversed"
+            out += [head] + p_lines(fbody)
+            if els is not None:
+                out += ["else"] + p_lines(els)
+            out.append("endfor")
+        elif t == "with":
+            out += ["with " + p_args(n[1])] + p_lines(n[2]) + ["endwith"]
+        elif t == "macro":
+            ps = "".join(", " + p + (f" = {p_expr(d)}" if d is not None else "") for p, d in n[2])
+            out += [f"macro {n[1]}{ps}"] + p_lines(n[3]) + ["endmacro"]
+        else:
+            raise ValueError(n)
+    return out
+
+
 def p_args(args: list[tuple]) -> str:
     return ", ".join(f"{k}: {p_expr(v)}" for k, v in args)
 
@@ -623,6 +733,10 @@ def p_node(n: tuple, r: random.Random | None = None) -> str:
         return OT + " comment %} c {{ x }} {% endcomment " + CT
     if t == "with":
         return OT + " with " + p_args(n[1]) + " " + CT + body(n[2]) + OT + " endwith " + CT
+    if t == "liquid":
+        ind = (lambda: r.choice(["", " ", "  ", "\t"])) if r is not None else (lambda: "")
+        lines = "".join((ind() if (LIQUID_COMMENT_INDENT or not ln.startswith(NOIND)) else "") + ln.lstrip(NOIND) + "\n" for ln in p_lines(n[1]))
+        return OT + " liquid" + ("\n" if lines else " ") + lines + ind() + CT
     if t == "render":
         out = OT + " render " + p_str(n[1])
         if n[2] is not None:
@@ -700,6 +814,10 @@ def c_expr(e: tuple) -> str:
         return f"(EOr {c_expr(e[1])} {c_expr(e[2])})"
     if t == "cmp":
         return f"(ECmp {_CMP[e[1]]} {c_expr(e[2])} {c_expr(e[3])})"
+    if t == "array":
+        return f"(EArray {C.clist([c_expr(x) for x in e[1]], 'expr')})"
+    if t == "tstr":
+        return "(ETemplate " + C.clist([c_expr(("lit", x[1])) if x[0] == "lit" else c_expr(x[1]) for x in e[1]], "expr") + ")"
     if t == "filter":
         return f"(EFilter {c_expr(e[1])} {_FN[e[2]]} {C.clist([c_expr(a) for a in e[3]], 'expr')})"
     if t == "lfilter":
@@ -712,7 +830,7 @@ def c_expr(e: tuple) -> str:
     raise ValueError(e)
 
 
-NODE_TAGS = {"content", "contentm", "rawm", "output", "echo", "assign", "capture", "if", "unless", "case", "for", "break",
+NODE_TAGS = {"content", "contentm", "rawm", "liquid", "output", "echo", "assign", "capture", "if", "unless", "case", "for", "break",
              "continue", "increment", "decrement", "cycle", "raw", "comment", "with", "render", "include",
              "macro", "call"}
 
@@ -828,6 +946,8 @@ def c_node(n: tuple) -> str:
         return f"(NRaw {C.cstr(n[1])})"
     if t == "comment":
         return "NComment"
+    if t == "liquid":
+        return f"(NLiquid {c_block(n[1])})"
     if t == "with":
         return f"(NWith {c_kw(n[1])} {c_block(n[2])})"
     if t == "render":
